@@ -166,7 +166,7 @@ public:
     {
         auto cmp = key_compare{};
         auto* p  = etl::lower_bound(_storage.begin(), _storage.end(), value, cmp);
-        if (p != _storage.end() && !(*(p) != value)) {
+        if (p != _storage.end() && !cmp(value, *p)) {
             return pair<iterator, bool>(p, false);
         }
 
@@ -275,7 +275,11 @@ public:
     /// element is found, past-the-end (see end()) iterator is returned.
     [[nodiscard]] constexpr auto find(key_type const& key) noexcept -> iterator
     {
-        return etl::find(begin(), end(), key);
+        auto const it = lower_bound(key);
+        if (it == end() || key_compare()(key, *it)) {
+            return end();
+        }
+        return it;
     }
 
     /// \brief Finds an element with key equivalent to key.
@@ -284,7 +288,11 @@ public:
     /// element is found, past-the-end (see end()) iterator is returned.
     [[nodiscard]] constexpr auto find(key_type const& key) const noexcept -> const_iterator
     {
-        return etl::find(begin(), end(), key);
+        auto const it = lower_bound(key);
+        if (it == end() || key_compare()(key, *it)) {
+            return end();
+        }
+        return it;
     }
 
     /// \brief Finds an element with key that compares equivalent to the value
